@@ -29,7 +29,7 @@ ASSUMPTIONS = [
     "sibling visiting order and order of values inside the children list are free",
     "held = held on the executions produced; depth explored up to 1e4 (quick) / 1e5 (thorough)",
 ]
-REQUIRED = ["traversals_started_inside_callbacks", "histories_checked", "events_checked", "deep_traversals", "low_limit_traversals",
+REQUIRED = ["traversals_started_inside_callbacks", "raised_limit_traversals", "histories_checked", "events_checked", "deep_traversals", "low_limit_traversals",
             "raising_callbacks_checked", "list_mutating_callbacks", "history_traversals",
             "inplace_reparentings", "history_copies", "history_rerootings", "handle_variants",
             "falsy_callable_callbacks", "forest_traversals", "row_permuted_topologies",
@@ -452,17 +452,18 @@ def _exec_lowlimit(ctx, case):
     tree = Tree(n, pid=pid)
     old = sys.getrecursionlimit()
     depth = len(__import__("inspect").stack(0))
+    lim = depth + 70 if not case.get("raised") else int(case["raised"])
     try:
-        sys.setrecursionlimit(depth + 70)
+        sys.setrecursionlimit(lim)
         try:
             ev, ret, nerr = _run_traverse(tree, api, mode, 0)
         finally:
             sys.setrecursionlimit(old)
     except RecursionError:
         ctx.violation("recursion-limit", f"traversal of a {n}-node {case['shape']} recursed "
-                                         f"per node (recursion limit = depth + 70)", case)
+                                         f"per node (recursion limit = {lim})", case)
         return
-    ctx.count("low_limit_traversals")
+    ctx.count("low_limit_traversals" if not case.get("raised") else "raised_limit_traversals")
     r = check_history(pid, 0, ev, ret, "e" in mode, "l" in mode)
     if r:
         ctx.violation(r[0], r[1], case)
@@ -592,6 +593,13 @@ def _workload(ctx):
                   (80, 90, 128, 200, 255, 256, 257, 300, 512, 1000, 2000, 5000)):
             case = {"kind": "lowlimit", "shape": shape, "n": n, "api": api, "mode": mode}
             ctx.case(case, klass=f"lowlimit/{shape}")
+            execute(ctx, case)
+        # ... and under a recursion limit the caller has *raised* (deep trees elsewhere in its
+        # program): chains deep enough to exhaust the interpreter's C stack long before that limit
+        for n, lim in ((1500, 20000), (4000, 10**6)):
+            case = {"kind": "lowlimit", "shape": shape, "n": n, "api": api, "mode": mode,
+                    "raised": lim}
+            ctx.case(case, klass=f"raised-limit/{shape}")
             execute(ctx, case)
 
 
